@@ -1,11 +1,13 @@
 import GdVerif.Run.Reader
+import GdVerif.Run.Valve
+import GdVerif.Run.GenValve
 /-
   gdmodel: the model behind a line protocol.
     gdmodel run        : reads `<id> <entry> <args…>` lines on stdin, prints `<id> <outcome>`
 -/
 open Gd Gd.Run
 
-def allEntries : List (String × (List String → String)) := readerEntries
+def allEntries : List (String × (List String → String)) := readerEntries ++ valveEntries
 
 def runLine (line : String) : String :=
   match line.trimAscii.toString.splitOn " " with
@@ -28,6 +30,15 @@ def main (args : List String) : IO UInt32 := do
   | ["run"] =>
     loop (← IO.getStdin) (← IO.getStdout)
     return 0
+  | ["gen", suite, seed, n] =>
+    match seed.toNat?, n.toNat? with
+    | some seed, some n =>
+      let lines := match suite with
+        | "valve" => genValve seed n
+        | _ => []
+      for l in lines do IO.println l
+      return 0
+    | _, _ => return 2
   | _ =>
-    IO.eprintln "usage: gdmodel run"
+    IO.eprintln "usage: gdmodel run | gen <suite> <seed> <n>"
     return 2
